@@ -17,7 +17,7 @@ DEFAULT_WEIGHTS = {
     "build": 6.0, "attach": 3.0, "remove": 2.5, "bulk_remove": 1.2, "reorder": 1.2,
     "connect": 5.0, "disconnect": 2.0, "bulk_disconnect": 1.0, "reference": 2.0, "top": 0.8,
     "name": 1.5, "data": 1.0, "bundle": 0.6, "orphans": 1.0, "hold": 0.4, "clone": 0.0,
-    "gc": 0.3, "policy": 0.0, "ns": 0.1,
+    "gc": 0.3, "policy": 0.0, "ns": 0.1, "chain": 0.3,
 }
 
 
@@ -265,6 +265,8 @@ class Gen:
         return {"op": bulk, "on": p[0], "xs": xs, "as_set": self.r.choice([False, False, True, True, "iter", "gen"])}
 
     def f_reorder(self):
+        if self.r.random() < 0.25:
+            return self.f_wire_reorder()
         ck = self._rel()
         pk, acc, back, _, _, _, setter = self.REL[ck]
         parents = [x for x in self.all(pk) if len(getattr(x[1], acc)) > 0]
@@ -401,6 +403,60 @@ class Gen:
         return {"op": "disconnect_pins_from", "on": wr[0], "pins": refs, "as_set": self.r.choice([False, False, True, True, "iter", "gen"])}
 
     def f_wire_reorder(self):
+        """wire.pins = <permutation of its pins> (the pins named by stored objects or by fresh proxies)."""
+        wires = [x for x in self.all("wire") if len(x[1].pins) > 0]
+        wr = self.pick(wires)
+        if wr is None:
+            return None
+        refs = [self._ref_for(p) for p in wr[1].pins]
+        if any(x is None for x in refs):
+            return None
+        self.r.shuffle(refs)
+        if self.hostile():
+            self.w.count("hostile.wire_reorder")
+            how = self.r.choice(["drop", "dup", "foreign"])
+            if how == "drop":
+                refs.pop()
+            elif how == "dup":
+                refs.append(self.r.choice(refs))
+            else:
+                c = self.pick(self._pin_candidates())
+                if c:
+                    refs.append(c[0])
+        return {"op": "set_wire_pins", "on": wr[0], "pins": refs}
+
+    def f_chain(self):
+        """A short scripted history on ONE instance pin: its wire's pin list is re-assigned (which hashes the stored
+        outer pin), the instance is re-pointed to a shape-compatible definition, then the pin is bulk-disconnected
+        through a fresh proxy - state kept inside a pin object across a re-point has to stay consistent."""
+        insts = [x for x in self.all("instance") if x[1].reference is not None and
+                 any(op.wire is not None for op in x[1].pins.values())]
+        i = self.pick(insts)
+        if i is None:
+            return None
+        ref = i[1].reference
+        sh = self._shape(ref)
+        comp = [d for d in self.all("definition") if d[1] is not ref and self._shape(d[1]) == sh]
+        d = self.pick(comp)
+        if d is None:
+            return None
+        for pk, port in enumerate(ref.ports):
+            for jk, ip in enumerate(port.pins):
+                op = i[1].pins.get(ip)
+                if op is None or op.wire is None:
+                    continue
+                wh = self.hd(op.wire)
+                new_ip = list(list(d[1].ports)[pk].pins)[jk]
+                nh = self.hd(new_ip)
+                refs = [self._ref_for(p) for p in op.wire.pins]
+                if wh is None or nh is None or any(x is None for x in refs):
+                    continue
+                self.w.count("probe.chain_reorder_repoint_bulk_disconnect")
+                self.queue.append({"op": "set_reference", "on": i[0], "x": d[0]})
+                self.queue.append({"op": "disconnect_pins_from", "on": wh,
+                                   "pins": [{"k": "proxy", "i": i[0], "p": nh}],
+                                   "as_set": self.r.choice([False, True])})
+                return {"op": "set_wire_pins", "on": wh, "pins": refs}
         return None
 
     # -- instances --------------------------------------------------------------------
@@ -469,13 +525,16 @@ class Gen:
         x = self.r.random()
         mode = self.cfg["names"]
         pool = NAMES_PLAIN if mode == "plain" else NAMES_COLLIDE
+        def val(v):
+            # now and then the value is an instance of a str subclass: equal to, and hashing like, the plain string
+            return {"__strsub__": v} if isinstance(v, str) and self.r.random() < 0.12 else v
         if x < 0.5:
-            return {"op": "set_name", "on": e[0], "v": self.r.choice(pool + [None])}
+            return {"op": "set_name", "on": e[0], "v": val(self.r.choice(pool + [None]))}
         if x < 0.6:
             return {"op": "del_name", "on": e[0]}
         key = self.r.choice([".NAME", "EDIF.identifier", "EDIF.identifier"])
         if x < 0.85:
-            return {"op": "data_set", "on": e[0], "key": key, "v": self.r.choice(pool)}
+            return {"op": "data_set", "on": e[0], "key": key, "v": val(self.r.choice(pool))}
         return {"op": self.r.choice(["data_del", "data_pop"]), "on": e[0], "key": key}
 
     def f_data(self):
